@@ -471,6 +471,7 @@ class Decorator:
         [("prev", "#"), ("blank", None), ("own", "/**")],
     ]
     MULTI_INLINE = [
+        [("blank", None), ("same", "/*"), ("same", "/*")],
         [("same", "/*"), ("same", "/*")],
         [("same", "/*"), ("own", "/*"), ("same", "/*")],
     ]
@@ -595,6 +596,9 @@ class Decorator:
                 ncom = 0
                 for where, style in pat:
                     if where == "blank":
+                        # an empty line between the previous token and the comment (`if <LF><LF> /* c */ (cond)`)
+                        ins = ins.rstrip(" ") + "\n\n  "
+                        twin = twin.rstrip(" ") + "\n\n  "
                         continue
                     c, line, _ = comment(kind, style, ncom == 0)
                     if where == "own" and ncom > 0:
